@@ -41,7 +41,7 @@ class P:
     prop = "C09"
     rule = ("EXEC of `x op y` (x, y bound in the context to (sign, 96-bit mantissa, scale) pairs biased to carries at 2^32, "
             "2^64, 2^96 and to scale differences 0..28) for op in + - * % < <= > >= == != and the compound forms "
-            "`x op= y; x`, plus literal programs (leading zeros, `1.`, up to 28 digits, trailing zeros, malformed digit "
+            "`x op= y; x`, negative zero (as a context value and as `- x` of a zero of any scale) on either side of every operator, plus literal programs (leading zeros, `1.`, up to 28 digits, trailing zeros, malformed digit "
             "runs). Mantissa and scale of the result are compared with the model; the exact rational result is the "
             "oracle. Non-trivial = distinct program+operands with a non-zero operand.")
     assumptions = ["rust_decimal 1.31.0 is a modelled dependency (contract of DESIGN.md 3.1)",
@@ -115,6 +115,31 @@ class P:
             line = "CV:1:%s:%s CV:1:%s:%s EXEC:1:%s" % (hx("x"), mk_num(*a), hx("y"), mk_num(*b), hx(src))
             items.append((line, ("bin", op, a, b, comp)))
         cases += flow.mk_cases("arith", items)
+        # NEGATIVE ZERO (a Decimal keeps a sign on zero; in the language only prefix `-` on a zero produces it): as a context value
+        # and as `- x` with x a zero of any scale, on either side of every operator, against zeros, small numbers and itself
+        zeros = [(False, 0, 0), (False, 0, 2), (False, 0, 28)]
+        others = [(False, 0, 0), (False, 0, 3), (True, 0, 0), (True, 0, 2), (False, 1, 0), (True, 1, 0), (False, 1, 28), (True, 5, 1)]
+        nz = []
+        for op in OPS:
+            for zr in zeros:
+                neg = (True, zr[1], zr[2])
+                for o in others:
+                    for form in ("cv-left", "cv-right", "minus-left", "minus-right", "minus-expr"):
+                        left = form.endswith("left") or form == "minus-expr"
+                        a, b = (neg, o) if left else (o, neg)
+                        zs, os_ = ("x", "y") if left else ("y", "x")
+                        if form.startswith("cv"):
+                            src = "x %s y" % op
+                            vals = {zs: neg, os_: o}
+                        elif form == "minus-expr":
+                            src = "- (x - x) %s y" % op
+                            vals = {"x": (False, 25, zr[2] if zr[2] < 28 else 27), "y": o}
+                        else:
+                            src = ("- x %s y" if left else "x %s - y") % op
+                            vals = {zs: zr, os_: o}
+                        line = " ".join("CV:1:%s:%s" % (hx(k), mk_num(*v)) for k, v in sorted(vals.items())) + " EXEC:1:" + hx(src)
+                        nz.append((line, ("bin", op, a, b, False)))
+        cases += flow.mk_cases("negzero", nz)
         return cases
 
     def show(self, case):
